@@ -168,7 +168,7 @@ def seq_insts(run, cfg):
                         st["tag"] = "main"
                         B.add(st)
                         progs.append(B.build())
-    traces = common.run_programs(cfg, progs)
+    traces = common.run_programs(cfg, progs, fresh=True)       # one interpreter each: these programs are about what survives between calls
     byid = {t["id"]: t for t in traces}
     insts = []
     for t in traces:
@@ -182,6 +182,7 @@ def seq_insts(run, cfg):
         if inst is None or inst["out"] != "ok":
             continue
         first_ok = all(e["out"] == "ok" for e in tp["events"] if e.get("tag") != "main" and e["op"] != "end") or not mp
+        inst["skip_samerel"] = False
         if not first_ok:
             inst["accepted"] = False
             inst["skip_samerel"] = True
